@@ -23,3 +23,12 @@ func selectHook() int {
 	}
 	return 0
 }
+
+// SimTaskDepth counts the tasks currently running on the calling goroutine because the pool is nil.
+// A task that panics never reaches taskLeave, so a non-zero value after the caller recovered tells a
+// simulator that the panic happened INSIDE a pool task - where, with a real pool, it would have
+// killed the process on a worker goroutine that nobody can recover.
+var SimTaskDepth int
+
+func taskEnter() { SimTaskDepth++ }
+func taskLeave() { SimTaskDepth-- }
